@@ -302,6 +302,8 @@ def run(chk, fb, tier):
     rule_empty_arms(chk, fb)
     symmetry.rule_enum_tables(chk, fb, "C06.b.enums")
     symmetry.rule_omitted_defaults(chk, fb, "C06.b.defaults", exclude=("CellFormula",))  # cell formulas are C01/C04 matter
+    symmetry.rule_attr_fields(chk, fb, "C06.b.fields")
+    symmetry.rule_parsed_as_stored(chk, fb, "C06.b.parsed")
     rule_sheet_list(chk, fb)
     # C06.c sheet-name uniqueness
     C02.rule_sheet_names(chk, fb, "C06.c")
